@@ -19,7 +19,8 @@ RULE = ('generated classes: 1-2 interfaces with 1-4 properties each over every b
         'holds exactly the readable properties of i over the whole class hierarchy, GetAll("") their union; one '
         'PropertiesChanged(interface, {name: value}, []) per assignment when the mode is true, none when false. '
         'Non-trivial = a Set followed by a Get, or a colliding property name, or an inherited property; distinct = '
-        'case JSON. A third of the descriptors are bound to their class after the class statement (setattr).')
+        'case JSON. A third of the descriptors are bound to their class after the class statement (setattr). Prologues: the object '
+        'was exported on another connection first, which is then withdrawn or lost; exports through an adapter.')
 ASSUMPTIONS = ['properties are assigned before export in their natural Python type - after construction, or (a third of the '
                'cases) by a subclass constructor before DBusObject.__init__ runs; later assignments also use values wrapped '
                'in the declared or in another fitting txdbus integer type',
@@ -213,7 +214,13 @@ def run_case(case):
             h0 = O.DBusObjectHandler(_Conn())
             h0.exportObject(obj)
             h.exportObject(obj)
-            h0.unexportObject('/props')
+            if len(case['attrs']) % 2:
+                h0.unexportObject('/props')
+            else:
+                # ... or the old connection simply dies (make-before-break reconnect)
+                from twisted.python.failure import Failure
+                from twisted.internet.error import ConnectionLost
+                h0.connectionLost(Failure(ConnectionLost('old connection gone')))
         elif len(case['ops']) % 4 == 1:
             from . import c10
             h.exportObject(c10._plain_for(O, obj))        # reaches IDBusObject through a registered adapter
